@@ -15,7 +15,7 @@ fn profile(fl: Fl, mode: u32, big: bool, rng: &mut Rng) -> Profile {
     let _ = rng;
     Profile {
         mint: if fl == Fl::Cons { 160 } else { 260 }, transfer: 260, transfer_from: 110, burn: 150, burn_from: 60,
-        approve: 60, approve_all: 40, advance: 20, p_wrong_auth: 8, mint_mode: mode, batches,
+        approve: 60, approve_all: 40, advance: 50, p_wrong_auth: 8, mint_mode: mode, p_long_advance: 40, batches,
         max_ids: if big { 40_000 } else if fl == Fl::Cons { 34 } else { 14 },
     }
 }
@@ -91,6 +91,7 @@ fn main() {
     let thorough = out.cfg.thorough;
     let scale = out.cfg.scale as usize;
     directed(&mut out, &mut rng);
+    persistence_scenarios(&mut out, &mut rng);
     if thorough { exhaustive_cons(&mut out, &mut rng); }
     let (ntr, nsteps) = if thorough { (540 * scale, 60) } else { (144 * scale, 32) };
     for i in 0..ntr {
